@@ -1169,6 +1169,69 @@ B_LANGS = ("c", "cpp", "py", "html")
 C_LANGS = ("c", "cpp", "py")
 
 
+REVISION_CLASSES = ["StructureType", "UnionType", "DelimitedType", "ServiceType", "UnsignedIntegerType", "FloatType", "VariableLengthArrayType", "FixedLengthArrayType", "BooleanType", "UTF8Type"]
+
+
+def revision_strategy():
+    from hypothesis import strategies as st
+
+    @st.composite
+    def strat(draw):
+        name = draw(st.sampled_from(REVISION_CLASSES))
+        anc = ancestors(name)
+        sets = draw(st.lists(st.lists(st.sampled_from(anc), unique=True, max_size=len(anc)), min_size=2, max_size=4))
+        if not any(sets):
+            sets[-1] = ["Any"]
+        return {"part": "A2", "class": name, "revisions": [sorted(x) for x in sets], "lookups_per_revision": draw(st.integers(1, 2))}
+
+    return strat()
+
+
+def eval_revisions(lab: "Lab", ctx, case) -> typing.List[Fail]:
+    """
+    One user templates directory (ONE path, reused for every case of the process) is revised: after each revision a FRESH
+    generator must resolve against the templates that exist now -- nothing may be remembered per path across generators.
+    The public DSDLCodeGenerator with templates_dir forces FIND_FIRST (only the user's templates count).
+    """
+    import nunavut.jinja
+
+    res: typing.List[Fail] = []
+    d = lab.root / "revised_templates"
+    name = case["class"]
+    prev: typing.Optional[typing.Set[str]] = None
+    for ri, names in enumerate(case["revisions"]):
+        if d.exists():
+            for f in d.iterdir():
+                f.unlink()
+        d.mkdir(exist_ok=True)
+        for n in names:
+            (d / f"{n}.j2").write_text(f"user:{n}:rev{ri}")
+        gen = nunavut.jinja.DSDLCodeGenerator(lab.ns["c"], templates_dir=d)
+        exp = nearest(name, set(names))
+        for _ in range(case["lookups_per_revision"]):
+            r = lookup(lab, gen, name)
+            stem = None if r is None else r[: -len(".j2")]
+            ok = (stem in exp) if exp else stem is None
+            changed = prev is not None and prev != set(names)
+            ctx.case(("a2", name, case["revisions"][: ri + 1]), nontrivial=changed, sample={"part": "A2", "class": name, "revisions": case["revisions"][: ri + 1], "resolved": r},
+                     classes=["A.revision_lookup"] + (["A.revised_same_path"] if changed else []))
+            if not ok:
+                stale = prev is not None and ((stem in nearest(name, prev)) if nearest(name, prev) else stem is None)
+                res.append((
+                    "A|fresh-generator-ignores-revised-templates-directory" if stale else "A|resolution-not-nearest|cfg=first-user|revised-directory",
+                    f"class {name}: the templates directory now holds {names}, a fresh generator resolved to {r!r}, nearest is {sorted(exp) or None}"
+                    + (f" (the previous revision held {sorted(prev)})" if prev is not None else ""),
+                ))
+                break
+            if r is not None:
+                text = gen._env.get_template(r).render()  # pylint: disable=protected-access
+                if text != f"user:{stem}:rev{ri}":
+                    res.append(("A|stale-template-content-after-revision", f"class {name}: {r} rendered {text!r}, the file now holds 'user:{stem}:rev{ri}'"))
+                    break
+        prev = set(names)
+    return res
+
+
 def run(ctx: core.Ctx):
     ctx.rule = (
         "A: case = (configuration, user / second-user / sub-folder / built-in template-name sets, decoy files, creation and "
@@ -1209,6 +1272,9 @@ def run(ctx: core.Ctx):
         # -------- A: generated histories with decoys, sub-folders, second user directory, real built-in package
         core.explore(ctx, hist_strategy(), lambda c: eval_a(lab, ctx, c), 500 if q else 5000)
         lap("A.histories")
+        # -------- A: the SAME templates directory revised between generators of one process
+        core.explore(ctx, revision_strategy(), lambda c: eval_revisions(lab, ctx, c), 120 if q else 1500, seed_offset=5)
+        lap("A.revisions")
         # -------- A: end to end through generate_all
         for k, mask in enumerate(range(1 << len(E2E_NAMES))):
             case = {"part": "E2E", "user": [n for i, n in enumerate(E2E_NAMES) if mask >> i & 1], "order": k}
@@ -1239,6 +1305,7 @@ def run(ctx: core.Ctx):
         ("A.findall_ambiguous", 500),
         ("A.same_name_both_sets", 500),
         ("A.reorder", 100),
+        ("A.revised_same_path", 100),
         ("A.fresh_generator", 1000),
         ("A.nested_dir", 20),
         ("A.cfg=all-real", 30),
